@@ -232,6 +232,12 @@ example : ((reconcile [] exPools).map (·.name)) = [0, 1, 3] := by
 /-- a benign history from the empty cluster: create A, reconcile, create overlapping older B, reconcile -/
 def exHist : List Event :=
   [.create 0 (some (false, ⟨0x0a000000, 16⟩)) 5, .reconcile, .create 1 (some (false, ⟨0x0a000000, 8⟩)) 0]
-example : ∀ e ∈ exHist, e.Benign := by decide
+example : ∀ e ∈ exHist, e.Benign := by
+  intro e he
+  simp only [exHist, List.mem_cons, List.not_mem_nil, or_false] at he
+  rcases he with rfl | rfl | rfl
+  · show Pfx.WF 32 _; decide
+  · trivial
+  · show Pfx.WF 32 _; decide
 
 end CalicoVerif.C39
